@@ -33,7 +33,8 @@ meta = {'seed_id': sid, 'property': pid, 'source': 'independent sub-agent given 
 try:
     demo = os.path.join(src, 'demo.cxx')
     def build_demo(tag):
-        r = sh('g++ -std=c++20 -O1 -I include %s src/*.cxx -o /tmp/demo-%s-%s' % (demo, sid, tag), cwd=WT)
+        flags = ' '.join(a.split('=', 1)[1] for a in sys.argv[4:] if a.startswith('--demo-flags='))   # e.g. --demo-flags=-fsanitize=address
+        r = sh('g++ -std=c++20 -O1 %s -I include %s src/*.cxx -o /tmp/demo-%s-%s' % (flags, demo, sid, tag), cwd=WT)
         assert r.returncode == 0, r.stdout[-3000:]
         r = sh('timeout 120 /tmp/demo-%s-%s' % (sid, tag), cwd=WT)
         os.unlink('/tmp/demo-%s-%s' % (sid, tag))
